@@ -21,7 +21,10 @@
     hello                                       type 0 with one version-bitmap element
     portStatus                                  type 12 with the full 64-byte ofp_port
     flowRemoved_gen / flowRemoved / flowRemoved_inPort      type 11: any correctly decoded match; empty; in_port
-    packetIn_gen / packetIn / packetIn_inPort   type 10 with an Ethernet frame of opaque ethertype and ANY payload
+    packetIn_gen / packetIn / packetIn_inPort / packetIn_inPort_arp
+                                                type 10: any correctly decoded match and Ethernet frame; empty match or
+                                                in_port match with a frame of opaque ethertype and ANY payload; in_port
+                                                match with an ARP packet decoded down to its addresses
     aggregateReply, descReply                   multipart replies (type 19) of multipart types 2 and 0
     flowStatsReply_gen / flowStatsReply / flowStatsReply_inPort_gotoTable   multipart type 1, one record
     bundleControlReply                          experimenter (type 4), ONF bundle control
@@ -402,24 +405,23 @@ def packetInV (h : V) (bufferId : UInt32) (totalLen : UInt16) (reason tableId : 
   .obj "PacketIn" [h, .num bufferId.toNat, .num totalLen.toNat, .num reason.toNat, .num tableId.toNat,
     .num cookie.toNat, m, .bytes [], eth]
 
-/-- packet-in (type 10) for ANY match that the match decoder reads back correctly (`mb` bytes of the padded `ofp_match`,
-    `mv` its value, `ml` its `Len()`), carrying an Ethernet frame of an ethertype the library keeps opaque:
-    header, buffer_id, total_len, reason, table_id, cookie, match, pad(2), frame.  All fields, both addresses, the
-    ethertype and every payload byte are exposed -/
+/-- packet-in (type 10) for ANY match and ANY Ethernet frame that their decoders read back correctly (`mb` bytes of the
+    padded `ofp_match`, `mv` its value, `ml` its `Len()`; `eb` bytes of the frame, `ev` its value):
+    header, buffer_id, total_len, reason, table_id, cookie, match, pad(2), frame — every fixed field is read from its
+    own place, the match starts at byte 24 and the frame right after the two pad bytes -/
 theorem packetIn_gen (xid : UInt32) (len : UInt16) (bufferId : UInt32) (totalLen : UInt16) (reason tableId : UInt8)
     (cookie : UInt64) (mb : Bytes) (mv : V) (ml : UInt16)
     (hm : ∀ dm : Slice, dm.WF → ∀ rest, dm.bytes = mb ++ rest → Match.unmarshalP msgMatchZero dm = .ok (mv, false))
     (hml : Match.lenM mv = .ok (ml, mv)) (hmlen : ml.toNat = mb.length) (hmb : mb.length < 60000)
-    (dst src : Bytes) (etherType : UInt16) (payload : Bytes) (hdst : dst.length = 6) (hsrc : src.length = 6)
-    (het : OpaqueEtherType etherType) (depth : Nat) (s : Slice) (hwf : s.WF)
-    (hb : s.bytes = hdr 10 len xid ++ (packetInFixed bufferId totalLen reason tableId cookie ++ (mb ++ (zeros 2
-      ++ ethBytes dst src etherType payload)))) :
-    parse depth s = .ok (packetInV (hdrV 10 len.toNat xid) bufferId totalLen reason tableId cookie mv
-      (ethV dst src etherType payload)) := by
-  simp only [hdr, packetInFixed, ethBytes, List.append_assoc] at hb
+    (eb : Bytes) (ev : V)
+    (he : ∀ de : Slice, de.WF → de.bytes = eb → PEthernet.unmarshal PEthernet.zero de = .ok ev)
+    (depth : Nat) (s : Slice) (hwf : s.WF)
+    (hb : s.bytes = hdr 10 len xid ++ (packetInFixed bufferId totalLen reason tableId cookie ++ (mb ++ (zeros 2 ++ eb)))) :
+    parse depth s = .ok (packetInV (hdrV 10 len.toNat xid) bufferId totalLen reason tableId cookie mv ev) := by
+  simp only [hdr, packetInFixed, List.append_assoc] at hb
   obtain ⟨k, hk⟩ := Sw.parse_step depth s
-  have hl : 40 + mb.length + payload.length = s.len := by
-    rw [← Sw.bytes_length s hwf, hb]; simp [hdst, hsrc]; omega
+  have hl : 26 + mb.length + eb.length = s.len := by
+    rw [← Sw.bytes_length s hwf, hb]; simp; omega
   obtain ⟨dm, h1, hdmwf, _, hdm⟩ := Sw.fromR_at s hwf 24 (by omega)
   rw [hb] at hdm
   have hn1 : ((24 : UInt16) + ml).toNat = 24 + mb.length := by
@@ -428,12 +430,12 @@ theorem packetIn_gen (xid : UInt32) (len : UInt16) (bufferId : UInt32) (totalLen
     rw [UInt16.toNat_add, hn1]; show (24 + mb.length + 2) % 65536 = _; omega
   obtain ⟨sp, h2, _, _, hsp⟩ := Sw.fromR_at s hwf (24 + mb.length) (by omega)
   obtain ⟨de, h3, hdewf, _, hde⟩ := Sw.fromR_at s hwf (26 + mb.length) (by omega)
-  have hde' : de.bytes = dst ++ (src ++ (be16 etherType ++ payload)) := by
+  have hde' : de.bytes = eb := by
     rw [hde, hb]
     have : [4, 10] ++ (be16 len ++ (be32 xid ++ (be32 bufferId ++ (be16 totalLen ++ ([reason, tableId] ++ (be64 cookie
-        ++ (mb ++ (zeros 2 ++ (dst ++ (src ++ (be16 etherType ++ payload)))))))))))
+        ++ (mb ++ (zeros 2 ++ eb))))))))
         = ([4, 10] ++ be16 len ++ be32 xid ++ be32 bufferId ++ be16 totalLen ++ [reason, tableId] ++ be64 cookie
-        ++ mb ++ zeros 2) ++ (dst ++ (src ++ (be16 etherType ++ payload))) := by
+        ++ mb ++ zeros 2) ++ eb := by
       simp only [List.append_assoc]
     rw [this]
     exact Sw.drop_pre _ _ _ (by simp; omega)
@@ -445,10 +447,11 @@ theorem packetIn_gen (xid : UInt32) (len : UInt16) (bufferId : UInt32) (totalLen
     Sw.byteAt_at s 14 reason _ (by rw [hb]; rfl),
     Sw.byteAt_at s 15 tableId _ (by rw [hb]; rfl),
     Sw.u64From_at s 16 cookie _ (by rw [hb]; rfl), h1, hm dm hdmwf _ (by rw [hdm]; rfl), hml, hn1, hn2, h2, h3,
-    Sw.ethernet_opaque de hdewf dst src etherType payload hdst hsrc het hde', Sw.copyInto_nil]
+    he de hdewf hde', Sw.copyInto_nil]
   rfl
 
-/-- packet-in with the empty match -/
+/-- packet-in with the empty match and an Ethernet frame of opaque ethertype: both addresses, the ethertype and every
+    payload byte are exposed -/
 theorem packetIn (xid : UInt32) (bufferId : UInt32) (totalLen : UInt16) (reason tableId : UInt8) (cookie : UInt64)
     (dst src : Bytes) (etherType : UInt16) (payload : Bytes) (hdst : dst.length = 6) (hsrc : src.length = 6)
     (het : OpaqueEtherType etherType) (hlen : 48 + payload.length < 65536) (depth : Nat) (s : Slice) (hwf : s.WF)
@@ -459,8 +462,10 @@ theorem packetIn (xid : UInt32) (bufferId : UInt32) (totalLen : UInt16) (reason 
   have := packetIn_gen xid (UInt16.ofNat (48 + payload.length)) bufferId totalLen reason tableId cookie matchEmpty
     Sw.matchEmptyV 8
     (fun dm _ rest h => Sw.match_empty _ _ dm (zeros 4 ++ rest) (by rw [h]; simp only [matchEmpty, List.append_assoc]))
-    Sw.matchEmpty_len rfl (by decide) dst src etherType payload hdst hsrc het depth s hwf
-    (by rw [hb]; simp only [List.append_assoc])
+    Sw.matchEmpty_len rfl (by decide) (ethBytes dst src etherType payload) (ethV dst src etherType payload)
+    (fun de hdewf h => Sw.ethernet_opaque de hdewf dst src etherType payload hdst hsrc het
+      (by rw [h]; simp only [ethBytes, List.append_assoc]))
+    depth s hwf (by rw [hb]; simp only [List.append_assoc])
   rw [Sw.ofNat16_toNat _ hlen] at this
   exact this
 
@@ -485,8 +490,11 @@ theorem packetIn_inPort (xid : UInt32) (bufferId : UInt32) (totalLen : UInt16) (
     (matchInPort inPort) (Sw.matchInPortV inPort) 16
     (fun dm hdmwf rest h => Sw.match_inPort _ _ dm hdmwf inPort (zeros 4 ++ rest)
       (by rw [h]; simp only [matchInPort, List.append_assoc]))
-    (Sw.matchInPort_len inPort) rfl (by show 16 < 60000; omega) dst src etherType payload hdst hsrc het depth s hwf
-    (by rw [hb]; simp only [List.append_assoc])
+    (Sw.matchInPort_len inPort) rfl (by show 16 < 60000; omega) (ethBytes dst src etherType payload)
+    (ethV dst src etherType payload)
+    (fun de hdewf h => Sw.ethernet_opaque de hdewf dst src etherType payload hdst hsrc het
+      (by rw [h]; simp only [ethBytes, List.append_assoc]))
+    depth s hwf (by rw [hb]; simp only [List.append_assoc])
   rw [Sw.ofNat16_toNat _ hlen] at this
   exact this
 
@@ -494,6 +502,39 @@ example : ∃ v, parse 0 (Slice.exact (hdr 10 64 3 ++ packetInFixed 0xffffffff 2
       ++ ethBytes [1, 2, 3, 4, 5, 6] [7, 8, 9, 10, 11, 12] 0x88cc [1, 2, 3, 4, 5, 6, 7, 8])) = .ok v :=
   ⟨_, packetIn_inPort 3 0xffffffff 22 0 5 0xabcdef 3 [1, 2, 3, 4, 5, 6] [7, 8, 9, 10, 11, 12] 0x88cc [1, 2, 3, 4, 5, 6, 7, 8]
     rfl rfl (by decide) (by decide) 0 _ (Slice.exact_wf _) rfl⟩
+
+/-- an Ethernet/IPv4 ARP packet (28 bytes): htype 1, ptype 0x0800, hlen 6, plen 4, operation, sender hardware address(6),
+    sender protocol address(4), target hardware address(6), target protocol address(4) -/
+def arpBytes (oper : UInt16) (sha spa tha tpa : Bytes) : Bytes :=
+  be16 1 ++ be16 0x0800 ++ [6, 4] ++ be16 oper ++ sha ++ spa ++ tha ++ tpa
+
+/-- packet-in with a match on in_port carrying an ARP packet: the frame is decoded down to the four ARP addresses -/
+theorem packetIn_inPort_arp (xid : UInt32) (bufferId : UInt32) (totalLen : UInt16) (reason tableId : UInt8)
+    (cookie : UInt64) (inPort : UInt32) (dst src : Bytes) (oper : UInt16) (sha spa tha tpa : Bytes)
+    (hdst : dst.length = 6) (hsrc : src.length = 6) (hsha : sha.length = 6) (hspa : spa.length = 4)
+    (htha : tha.length = 6) (htpa : tpa.length = 4) (depth : Nat) (s : Slice) (hwf : s.WF)
+    (hb : s.bytes = hdr 10 84 xid ++ packetInFixed bufferId totalLen reason tableId cookie
+      ++ matchInPort inPort ++ zeros 2 ++ (dst ++ src ++ be16 0x0806 ++ arpBytes oper sha spa tha tpa)) :
+    parse depth s = .ok (packetInV (hdrV 10 84 xid) bufferId totalLen reason tableId cookie
+      (.obj "Match" [.num 1, .num 12, .list [.obj "MatchField" [.num 0x8000, .num 0, .num 0, .num 4, .num 0,
+        .obj "InPortField" [.num inPort.toNat], .nil]]])
+      (.obj "p.Ethernet" [.num 0, .bytes dst, .bytes src, .obj "p.VLAN" [.num 0, .num 0, .num 0, .num 0], .num 0x0806,
+        .obj "p.ARP" [.num 1, .num 0x0800, .num 6, .num 4, .num oper.toNat, .bytes sha, .bytes spa, .bytes tha,
+          .bytes tpa]])) :=
+  packetIn_gen xid 84 bufferId totalLen reason tableId cookie (matchInPort inPort) (Sw.matchInPortV inPort) 16
+    (fun dm hdmwf rest h => Sw.match_inPort _ _ dm hdmwf inPort (zeros 4 ++ rest)
+      (by rw [h]; simp only [matchInPort, List.append_assoc]))
+    (Sw.matchInPort_len inPort) rfl (by show 16 < 60000; omega)
+    (dst ++ src ++ be16 0x0806 ++ arpBytes oper sha spa tha tpa) _
+    (fun de hdewf h => Sw.ethernet_arp de hdewf dst src oper sha spa tha tpa hdst hsrc hsha hspa htha htpa
+      (by rw [h]; simp only [arpBytes, List.append_assoc]))
+    depth s hwf (by rw [hb]; simp only [List.append_assoc])
+
+example : ∃ v, parse 0 (Slice.exact (hdr 10 84 3 ++ packetInFixed 0xffffffff 42 0 0 0 ++ matchInPort 2 ++ zeros 2
+      ++ ([0xff, 0xff, 0xff, 0xff, 0xff, 0xff] ++ [2, 0, 0, 0, 0, 1] ++ be16 0x0806
+        ++ arpBytes 1 [2, 0, 0, 0, 0, 1] [10, 0, 0, 1] [0, 0, 0, 0, 0, 0] [10, 0, 0, 2]))) = .ok v :=
+  ⟨_, packetIn_inPort_arp 3 0xffffffff 42 0 0 0 2 [0xff, 0xff, 0xff, 0xff, 0xff, 0xff] [2, 0, 0, 0, 0, 1] 1 [2, 0, 0, 0, 0, 1]
+    [10, 0, 0, 1] [0, 0, 0, 0, 0, 0] [10, 0, 0, 2] rfl rfl rfl rfl rfl rfl 0 _ (Slice.exact_wf _) rfl⟩
 
 /-! ### multipart replies: aggregate, description, flow statistics -/
 
